@@ -94,10 +94,51 @@ Theorem C20_selected_file_shadows_default :
     /\ load_files_with envf tbl penv None None = load_with envf tbl penv [].
 Proof. exact selected_file_shadows_default. Qed.
 
+(* blank variables.  For a bool / int / uint16 / duration key the empty text is not a value of the key's type:
+   a blank variable provides no value - the file's entry or the default is the effective value, for the code
+   and for the contract alike (so it can never make Load fail either) *)
+Theorem C20_blank_variable_non_string :
+  forall tbl penv filel cfg e,
+    NoDup (map e_key tbl) -> In e tbl -> stringy (e_type e) = false ->
+    lookup penv (env_name (e_key e)) = Some "" ->
+    (load_model tbl penv filel = Some cfg \/ load_spec tbl penv filel = Some cfg) ->
+    (forall r, lookup filel (e_key e) = Some r -> lookup cfg (e_key e) = canon (e_type e) r)
+    /\ (lookup filel (e_key e) = None -> lookup cfg (e_key e) = Some (e_default e)).
+Proof. exact blank_variable_non_string. Qed.
+
+(* only the key's OWN variable enters: a variable named like a section (BHS_HTTP), like another key, or like
+   nothing at all - blank or not - does not reach the key (with C20_load_pointwise: no cross-key effect) *)
+Theorem C20_env_only_own_variable :
+  forall tbl penv1 penv2 k,
+    lookup penv1 (env_name k) = lookup penv2 (env_name k) ->
+    env_of penv1 k = env_of penv2 k /\ env_of_spec tbl penv1 k = env_of_spec tbl penv2 k.
+Proof. exact env_only_own_variable. Qed.
+
+(* Load refuses iff a winning source value cannot be decoded into its key's type, or the resolved logging.level
+   is not one zerolog.ParseLevel knows; nothing else (format, instance name, origin) can make it fail *)
+Theorem C20_load_refuses_iff :
+  forall envf tbl penv filel,
+    (load_with envf tbl penv filel = None <-> load_refusal envf tbl penv filel <> None)
+    /\ (load_refusal envf tbl penv filel = Some IllTypedValue
+        <-> exists e, In e tbl /\ effective envf penv filel e = None)
+    /\ (load_refusal envf tbl penv filel = Some BadLogLevel
+        <-> exists cfg l,
+              sequence (map (fun e => option_map (fun v => (e_key e, v)) (effective envf penv filel e)) tbl) = Some cfg
+              /\ lookup cfg "logging.level" = Some l /\ valid_level l = false).
+Proof. exact load_refuses_iff. Qed.
+
 (* the model of the code meets the contract whenever no variable is set to the empty string ... *)
 Theorem C20_load_model_meets_contract :
   forall tbl penv filel, (forall var, ~ In (var, "") penv) -> load_model tbl penv filel = load_spec tbl penv filel.
 Proof. exact load_model_meets_contract. Qed.
+
+(* HISTORY: the code before fix commit 1a867b2 (viper.AutomaticEnv) let a non-empty variable named like a SECTION
+   hide the file's entries of the keys below it; for that OLD code model (load_model_old) the statement above was
+   false.  Since 1a867b2 a variable named like a section reaches no key (C20_env_only_own_variable is a statement
+   about the code model too).  The witnesses stay in corpus/C20. *)
+Theorem C20_section_env_shadows_file_old_refuted :
+  ~ (forall tbl penv filel, (forall var, ~ In (var, "") penv) -> load_model_old tbl penv filel = load_spec tbl penv filel).
+Proof. exact section_env_shadows_file_old_refuted. Qed.
 
 (* ... and NOT in general (known finding env-empty-ignored):
      forall tbl penv filel, load_model tbl penv filel = load_spec tbl penv filel      is false *)
@@ -189,7 +230,11 @@ Print Assumptions C20_untouched_keys_keep_default.
 Print Assumptions C20_single_env_override.
 Print Assumptions C20_selected_file_is_read.
 Print Assumptions C20_selected_file_shadows_default.
+Print Assumptions C20_blank_variable_non_string.
+Print Assumptions C20_env_only_own_variable.
+Print Assumptions C20_load_refuses_iff.
 Print Assumptions C20_load_model_meets_contract.
+Print Assumptions C20_section_env_shadows_file_old_refuted.
 Print Assumptions C20_env_empty_refuted.
 Print Assumptions C20_env_name_well_formed.
 Print Assumptions C20_keys_nonempty.
